@@ -21,6 +21,8 @@ cmp -s "$ROOT/build/gen/Wrappers_gen.v" "$ROOT/coq/Gen/Wrappers_gen.v" || cp "$R
 cmp -s "$ROOT/build/gen/Comparators_gen.v" "$ROOT/coq/Gen/Comparators_gen.v" || cp "$ROOT/build/gen/Comparators_gen.v" "$ROOT/coq/Gen/Comparators_gen.v"
 "$ROOT/build/vh" decisions -out "$ROOT/build/gen/decisions" "$ROOT/build/gen/Decisions_gen.v" >/dev/null || exit 1
 cmp -s "$ROOT/build/gen/Decisions_gen.v" "$ROOT/coq/Gen/Decisions_gen.v" || cp "$ROOT/build/gen/Decisions_gen.v" "$ROOT/coq/Gen/Decisions_gen.v"
+"$ROOT/build/vh" fragments -out "$ROOT/build/gen/fragments" "$ROOT/build/gen/Windcount_gen.v" >/dev/null || exit 1
+cmp -s "$ROOT/build/gen/Windcount_gen.v" "$ROOT/coq/Gen/Windcount_gen.v" || cp "$ROOT/build/gen/Windcount_gen.v" "$ROOT/coq/Gen/Windcount_gen.v"
 cd "$ROOT/coq"
 if [ ! -f Makefile ] || [ _CoqProject -nt Makefile ]; then
   coq_makefile -f _CoqProject -o Makefile >/dev/null
